@@ -488,6 +488,11 @@ def builder_structs(tier):
             st.vis = 'pub(crate)'
         elif k % 5 == 4:
             st.vis = ''
+    # several array fields in one builder (the sum of the element counts matters, not only each count)
+    out.append(Struct(64, [Field([(0, 4)], 'u', arr=(8, 4), stride_explicit=False), Field([(32, 1)], 'b', arr=(32, 1), stride_explicit=False)], has_builder=True, family='BLDMULTIARR'))
+    out.append(Struct(128, [Field([(0, 1)], 'b', arr=(40, 1), stride_explicit=False), Field([(40, 8)], 'n', arr=(5, 8), stride_explicit=False),
+                            Field([(80, 2)], 'u', arr=(24, 2), stride_explicit=False)], has_builder=True, family='BLDMULTIARR'))
+    out += signed_builder_structs()
     # field names that coincide with parameters / locals of the generated builder code, and raw identifiers
     fsn = []
     for j, nm in enumerate(TRICKY_NAMES[:16]):
@@ -629,6 +634,13 @@ def const_set(tier):
         structs += L.pack(n, fs[::step], 'CUSTOM', per=12)
     bs = builder_structs('quick')
     structs += bs[::(25 if tier == 'quick' else 3)]
+    # builder layouts with many array elements / several array fields / long chains
+    structs += [b for b in bs if b.family in ('BLDWIDE', 'BLDMANY', 'BLDNAMES')][::(3 if tier == 'quick' else 1)]
+    structs.append(Struct(64, [Field([(0, 4)], 'u', arr=(8, 4), stride_explicit=False), Field([(32, 1)], 'b', arr=(32, 1), stride_explicit=False)], has_builder=True, family='BLDMULTIARR'))
+    structs.append(Struct(128, [Field([(0, 1)], 'b', arr=(40, 1), stride_explicit=False), Field([(40, 8)], 'n', arr=(5, 8), stride_explicit=False),
+                                Field([(80, 2)], 'u', arr=(24, 2), stride_explicit=False)], has_builder=True, family='BLDMULTIARR'))
+    structs.append(Struct(128, [Field([(0, 2)], 'u', arr=(20, 2), stride_explicit=False), Field([(64, 16)], 'i', arr=(4, 16), stride_explicit=False)],
+                          default=1 << 50, has_builder=True, family='BLDMULTIARR'))
     # signed / non-contiguous / array samples on small bases
     structs += L.pack(8, L.noncontig(8, [2])[::(40 if tier == 'quick' else 6)], 'NC', per=10)
     structs += L.pack(8, L.arrays_full(8)[::(12 if tier == 'quick' else 2)], 'ARR', per=10)
@@ -678,4 +690,58 @@ def beyond_structs(tier):
                 continue
             f.family = 'BEYOND'
             out.append(Struct(n, [f], family='BEYOND', passes=[('full', 'full')] if n <= 16 else [('alpha', 'alpha')]))
+    return out
+
+
+# ------------------------------------------------------------------------------------------------
+# OPTIONAL: spellings the documentation does not promise to accept (attribute arguments in another order than
+# `range, access, stride`) but whose meaning is unambiguous. They are compiled one by one; whichever the macro
+# accepts must behave exactly like the documented spelling (C03 / C02 explore them), whichever it rejects is fine.
+
+def optional_structs(tier):
+    out = []
+    orders = ('sra', 'sar', 'ars', 'asr', 'rsa')
+    for n in (8, 16, 32, 128) if tier == 'quick' else (8, 12, 16, 24, 32, 64, 100, 128):
+        k = 0
+        for w, kind in ((1, 'b'), (1, 'u'), (2, 'u'), (4, 'u'), (8, 'n'), (8, 'i')):
+            for lo in (0, 1):
+                for stride in sorted({w, w + 1, 2 * w}):
+                    kmax = (n - lo - w) // stride + 1
+                    for K in sorted({2, kmax}):
+                        if K < 2 or K > kmax:
+                            continue
+                        for od in orders:
+                            k += 1
+                            f = Field([(lo, w)], kind, arr=(K, stride), family='OPTORDER', arg_order=od,
+                                      stride_sep=(':' if k % 3 == 0 else '='))
+                            out.append(Struct(n, [f], family='OPTORDER', passes=[('full', 'full')] if n <= 16 else [('alpha', 'alpha')]))
+        # multi-range arrays and scalars with access first
+        for od in orders:
+            out.append(Struct(n, [Field([(0, 1), (2, 1)], 'u', arr=(2, 4), family='OPTORDER', arg_order=od)], family='OPTORDER',
+                              passes=[('full', 'full')] if n <= 16 else [('alpha', 'alpha')]))
+        out.append(Struct(n, [Field([(1, 3)], 'u', family='OPTORDER', arg_order='ars')], family='OPTORDER', passes=[('full', 'full')] if n <= 16 else [('alpha', 'alpha')]))
+        out.append(Struct(n, [Field([(n - 1, 1)], 'b', family='OPTORDER', arg_order='ars')], family='OPTORDER', passes=[('full', 'full')] if n <= 16 else [('alpha', 'alpha')]))
+    return out
+
+
+def signed_builder_structs():
+    """C05: signed fields written through the builder"""
+    out = []
+    for n in (16, 32, 64, 128):
+        for w in (8, 16, 32, 64):
+            if 2 * w > n:
+                continue
+            K = n // w
+            out.append(Struct(n, [Field([(0, w)], 'i', arr=(K, w), family='SIGNEDBLD', stride_explicit=False)], family='SIGNEDBLD', has_builder=True))
+            if K - 1 >= 2:
+                out.append(Struct(n, [Field([(0, w)], 'i', arr=(K - 1, w), family='SIGNEDBLD', stride_explicit=False), Field([(n - w, w)], 'n', family='SIGNEDBLD')],
+                                  family='SIGNEDBLD', has_builder=True))
+                out.append(Struct(n, [Field([(n - w, w)], 'n', family='SIGNEDBLD'), Field([(0, w)], 'i', arr=(K - 1, w), family='SIGNEDBLD')],
+                                  default=1 << (n - 1), family='SIGNEDBLD', has_builder=True))
+            out.append(Struct(n, [Field([(0, w)], 'i', family='SIGNEDBLD'), Field([(w, n - w)], 'n' if (n - w) in NATIVE else 'u', family='SIGNEDBLD')],
+                              family='SIGNEDBLD', has_builder=True))
+            if w + 2 <= n:
+                out.append(Struct(n, [Field([(1, w)], 'i', family='SIGNEDBLD')], default=0, family='SIGNEDBLD', has_builder=True))
+                h = w // 2
+                out.append(Struct(n, [Field([(n - h, h), (0, h)], 'i', family='SIGNEDBLD')], default=1 << h, family='SIGNEDBLD', has_builder=True))
     return out
